@@ -67,6 +67,8 @@ func (fr *Frame) call(x *ssa.Call) {
 	}
 	if c.IsInvoke() {
 		fr.invoke(x, args)
+		mn := c.Method.Name()
+		fr.assertsAfterNamed(x, mn, func(cl *ssa.Call) bool { return cl.Call.IsInvoke() && cl.Call.Method.Name() == mn })
 		return
 	}
 	callee := c.StaticCallee()
@@ -129,6 +131,11 @@ func (fr *Frame) assertsAfterNamed(x *ssa.Call, calleeName string, same func(*ss
 				env.vars[fmt.Sprintf("$arg%d", ai)] = cvOfVal(canonVal(val))
 			} else if c, ok := av.(*ssa.Const); ok {
 				env.vars[fmt.Sprintf("$arg%d", ai)] = cvOfVal(canonVal(fr.constVal(c)))
+			}
+		}
+		if x.Call.IsInvoke() {
+			if rv, ok := fr.env[x.Call.Value]; ok {
+				env.vars["$recv"] = cvOfVal(canonVal(rv))
 			}
 		}
 		if rv, ok := fr.env[x]; ok && rv.K != VTuple {
@@ -857,13 +864,7 @@ func sortIfaceModel(name string) *extModel {
 					hdr := fr.st.load(t, box.Ref, IntLit(0))
 					if name == "sort.Sort" {
 						fr.checkWrite(x, hdr.Ref, hdr.Off, Mul(IntLit(sizeOf(sl.Elem())), hdr.Len))
-						seen := map[string]bool{}
-						for _, k := range cellKinds(sl.Elem()) {
-							if !seen[k] {
-								seen[k] = true
-								fr.st.setRow(k, hdr.Ref, Fresh("row!sorted", ArrS(IntS, kindSort(k))))
-							}
-						}
+						fr.permuteRows(hdr, sl.Elem())
 						fr.u.assumed["sort.Sort: permutes the elements of its argument in place calling only Len/Less/Swap; if Less is a strict weak order the result is sorted by it (assumed; the element values after the call are unconstrained in this model)"] = true
 						return nil
 					}
@@ -878,6 +879,13 @@ func sortIfaceModel(name string) *extModel {
 }
 
 func init() {
+	// sort.Reverse(x) wraps x so that Less is flipped: for this model (which leaves the element values after a
+	// sort unconstrained) the wrapper is represented by the wrapped value itself.
+	extModels["sort.Reverse"] = &extModel{pure: true, fn: func(fr *Frame, x *ssa.Call, args []*Val) []*Val {
+		v := *args[0]
+		fr.u.assumed["sort.Reverse: returns a sort.Interface over the same data with Less flipped (modelled as the wrapped value; order after sorting is not modelled)"] = true
+		return []*Val{&v}
+	}}
 	extModels["sort.Sort"] = sortIfaceModel("sort.Sort")
 	extModels["sort.IsSorted"] = sortIfaceModel("sort.IsSorted")
 	// sort.Slice(x, less): x is a slice boxed in an interface; its backing array is permuted.
@@ -889,13 +897,7 @@ func init() {
 				if sl, ok := t.Underlying().(*types.Slice); ok {
 					hdr := fr.st.load(t, box.Ref, IntLit(0))
 					fr.checkWrite(x, hdr.Ref, hdr.Off, Mul(IntLit(sizeOf(sl.Elem())), hdr.Len))
-					seen := map[string]bool{}
-					for _, k := range cellKinds(sl.Elem()) {
-						if !seen[k] {
-							seen[k] = true
-							fr.st.setRow(k, hdr.Ref, Fresh("row!sorted", ArrS(IntS, kindSort(k))))
-						}
-					}
+					fr.permuteRows(hdr, sl.Elem())
 					fr.u.assumed["sort.Slice: permutes the slice in place using only the comparator (which must be pure); element values after the call are unconstrained in this model"] = true
 					return nil
 				}
@@ -1261,4 +1263,39 @@ func anyFieldKinds(key string) []string {
 	}
 	sort.Strings(out)
 	return out
+}
+
+// permuteRows: the elements of slice hdr are rearranged in place: every cell row of the backing array is
+// replaced by a fresh one whose element k is the old element pi(k), pi an injective map of [0,len) into
+// itself (a fresh uninterpreted function); cells outside the slice's window keep their values.
+func (fr *Frame) permuteRows(hdr *Val, el types.Type) {
+	kinds := cellKinds(el)
+	sz := int64(len(kinds))
+	freshN++
+	pi := DeclareFun(fmt.Sprintf("perm!%d", freshN), []*Sort{IntS}, IntS)
+	k := BoundVar("k", IntS)
+	k2 := BoundVar("k2", IntS)
+	inR := func(x *Term) *Term { return And(Le(IntLit(0), x), Lt(x, hdr.Len)) }
+	fr.assume(Forall([]*Term{k}, Implies(inR(k), inR(App(pi, IntS, k)))))
+	fr.assume(Forall([]*Term{k, k2}, Implies(And(inR(k), inR(k2), Eq(App(pi, IntS, k), App(pi, IntS, k2))), Eq(k, k2))))
+	oldRows := map[string]*Term{}
+	newRows := map[string]*Term{}
+	for _, kd := range kinds {
+		if _, ok := oldRows[kd]; !ok {
+			oldRows[kd] = fr.st.row(kd, hdr.Ref)
+			newRows[kd] = Fresh("row!sorted", ArrS(IntS, kindSort(kd)))
+		}
+	}
+	for c, kd := range kinds {
+		ci := IntLit(int64(c))
+		newIdx := Add(hdr.Off, Add(Mul(IntLit(sz), k), ci))
+		oldIdx := Add(hdr.Off, Add(Mul(IntLit(sz), App(pi, IntS, k)), ci))
+		fr.assume(Forall([]*Term{k}, Implies(inR(k), Eq(Select(newRows[kd], newIdx), Select(oldRows[kd], oldIdx)))))
+	}
+	j := BoundVar("j", IntS)
+	for kd, nr := range newRows {
+		out := Or(Lt(j, hdr.Off), Ge(j, Add(hdr.Off, Mul(IntLit(sz), hdr.Len))))
+		fr.assume(Forall([]*Term{j}, Implies(out, Eq(Select(nr, j), Select(oldRows[kd], j)))))
+		fr.st.setRow(kd, hdr.Ref, nr)
+	}
 }
